@@ -105,7 +105,16 @@ def sweep(ctx: Ctx):
             ("HandyRTransform", dict(rmin=0.0, R=1.5, m=3), "GaussChebyshev", 200),
             ("HandyRTransform", dict(rmin=0.0, R=1.5, m=2), "GaussLegendre", 900)]
     classes = ["BeckeRTransform", "LinearFiniteRTransform", "MultiExpRTransform", "KnowlesRTransform", "HandyRTransform", "HandyModRTransform"]
-    rules = ["GaussLegendre", "GaussChebyshev", "GaussChebyshevType2", "ClenshawCurtis", "FejerFirst", "MidPoint", "Simpson"]
+    rules = ["GaussLegendre", "GaussChebyshev", "GaussChebyshevType2", "ClenshawCurtis", "FejerFirst", "MidPoint", "Simpson", "Trapezoidal"]
+    # closed rules (nodes ON the domain ends) with every class, and length scales far from 1
+    for c in classes:
+        p0, _, _ = c03.sample_params(c, ctx.rng)
+        plan.append((c, p0, ctx.rng.choice(["ClenshawCurtis", "Trapezoidal"]), ctx.rng.choice([4, 5, 8])))
+        for sc in (2.0 ** -33, 2.0 ** 27):
+            ps = {k: (v * sc if k in ("rmin", "rmax", "R") else v) for k, v in p0.items()}
+            if c == "HandyModRTransform":
+                continue  # its admissible range couples rmax - rmin to 2^m: not scale free
+            plan.append((c, ps, ctx.rng.choice(rules[:4]), 6))
     for _ in range(12 if ctx.quick else 150):
         c = ctx.rng.choice(classes)
         p, _, _ = c03.sample_params(c, ctx.rng)
@@ -140,8 +149,23 @@ def sweep(ctx: Ctx):
         if bad.any():
             i = int(np.argmax(bad))
             first.setdefault("jacobian_magnitude", (desc, float(new.weights[i]), float(exp_w[i])))
-        if np.all(w >= 0) and np.any(new.weights[interior] < 0):
-            first.setdefault("weights_nonneg", (desc, float(np.min(new.weights[interior])), ">= 0"))
+        # nodes ON a domain end: no NaN anywhere; where the image is finite the weight is w * |one-sided Jacobian| (independent of deriv)
+        if np.isnan(new.weights).any() or np.isnan(new.points).any():
+            i = int(np.argmax(np.isnan(new.weights) | np.isnan(new.points)))
+            first.setdefault("end_node", (desc + f": node {float(x[i])!r}", float(new.weights[i]), "a number (finite, or the trimmed infinity)"))
+        for i in np.nonzero(~interior)[0]:
+            if not np.isfinite(tx_nt[i]):
+                continue
+            sgn = 1.0 if x[i] < 0 else -1.0
+            with np.errstate(all="ignore"):
+                f0 = float(tx_nt[i])
+                d = [(float(tf_nt.transform(x[i] + sgn * h)) - f0) / (sgn * h) for h in (2.0 ** -18, 2.0 ** -19)]
+            jac = 2 * d[1] - d[0]  # Richardson step of the one-sided difference quotient
+            scale_ = abs(float(tf_nt.transform(x[i] + sgn * 0.5)) - f0)
+            if np.isfinite(jac) and abs(d[1] - d[0]) <= 1e-3 * scale_ and not abs(abs(new.weights[i]) - abs(w[i] * jac)) <= 1e-4 * (abs(w[i]) * (abs(jac) + scale_)):
+                first.setdefault("end_node", (desc + f": node {float(x[i])!r}: |weight|", abs(float(new.weights[i])), abs(float(w[i] * jac))))
+        if np.all(w >= 0) and np.any(new.weights < 0):
+            first.setdefault("weights_nonneg", (desc, float(np.min(new.weights[interior])) if np.any(new.weights[interior] < 0) else float(np.min(new.weights)), ">= 0"))
         dom = new.domain
         if dom is not None:
             if not (dom[0] <= dom[1]) or np.min(new.points) < dom[0] - 1e-7 or np.max(new.points) > dom[1] + 1e-7:
@@ -154,6 +178,35 @@ def sweep(ctx: Ctx):
             val = float(np.sum(new.weights[interior] * np.exp(-new.points[interior])))
             if not val > 0:
                 first.setdefault("positive_integral", (desc + ": integral of exp(-r)", val, "> 0"))
+    # the inverse map as a change of variables (r -> x): nodes tf.inverse(r), weights w / |tf.deriv(x)|, for length scales 1e-10..1e8
+    inv_plan = []
+    for c in classes:
+        for sc in (1.0, 2.0 ** -33, 2.0 ** -20, 2.0 ** 27):
+            p0, _, _ = c03.sample_params(c, ctx.rng)
+            if sc != 1.0 and c == "HandyModRTransform":
+                continue
+            inv_plan.append((c, {k: (v * sc if k in ("rmin", "rmax", "R") else v) for k, v in p0.items()}))
+    for cname, p in inv_plan:
+        tf = _tf(cname, p)
+        xs = np.array(sorted(ctx.rng.sample(range(-58, 59), 5))) / 64.0
+        ws = np.array([ctx.rng.randint(1, 64) / 32.0 for _ in range(5)])
+        desc = f"InverseRTransform({cname}({', '.join(f'{k}={v}' for k, v in p.items())})).transform_1d_grid(OneDGrid(transform({xs.tolist()}), {ws.tolist()}))"
+        with np.errstate(all="ignore"):
+            rs, dv = tf.transform(xs), tf.deriv(xs)
+        order = np.argsort(rs)
+        try:
+            new = transformed(RT.InverseRTransform(tf), OneDGrid(rs[order], ws[order], (float(rs.min()), float(rs.max()))))
+        except Exception as e:  # noqa: BLE001
+            first.setdefault("inverse_grid", (desc, type(e).__name__ + ": " + str(e)[:60], "a grid with nodes x and weights w/|r'(x)|"))
+            continue
+        n += 1
+        if not np.allclose(new.points, xs[order], rtol=0, atol=1e-9):
+            first.setdefault("inverse_grid", (desc + ": nodes", float(np.max(np.abs(new.points - xs[order]))), 0.0))
+        elif not np.allclose(np.abs(new.weights), (ws / np.abs(dv))[order], rtol=1e-7, atol=0):
+            i = int(np.argmax(np.abs(np.abs(new.weights) / (ws / np.abs(dv))[order] - 1)))
+            first.setdefault("inverse_grid", (desc + f": |weight {i}|", abs(float(new.weights[i])), float((ws / np.abs(dv))[order][i])))
+        elif np.any(new.weights < 0):
+            first.setdefault("weights_nonneg", (desc, float(np.min(new.weights)), ">= 0"))
     # exactness transport: Gauss-Legendre mapped linearly to [a,b]
     for npt in ([2, 5, 8] if ctx.quick else range(2, 16)):
         a, b = Fraction(ctx.rng.randint(-8, 8), 4), None
